@@ -54,6 +54,17 @@ class Mute(Node):
         return None
 
 
+class NoOut(Command):
+    """A command whose class declares no output kind at all."""
+
+    inputs = {"V": params.NumberParameter(required=False)}
+
+    def execute(self, **kwargs):
+        vlog.LOG.append(("enter", self.result_name))
+        vlog.LOG.append(("exit", self.result_name))
+        return kwargs.get("V", 0)
+
+
 class Kinds(Command):
     """One parameter of every parameter class; returns the cleaned keyword arguments (references by name)."""
 
